@@ -179,4 +179,481 @@ theorem so_go_join (sep : Char) (toks : List (List Char)) (h : ∀ t ∈ toks, s
       simp
 
 
+
+/-! ### hex digits -/
+/-- an upper-case hex digit character -/
+def HexCh (c : Char) : Prop := ∃ k, k < 16 ∧ c = hexDigit k
+
+theorem hexCh_hexDigit (k : Nat) : HexCh (hexDigit k) := by
+  by_cases h : k < 16
+  · exact ⟨k, h, rfl⟩
+  · refine ⟨0, by omega, ?_⟩
+    have h16 : ("0123456789ABCDEF".toList).length ≤ k := by
+      have : ("0123456789ABCDEF".toList).length = 16 := by decide
+      omega
+    simp only [hexDigit, List.getD, List.getElem?_eq_none h16, Option.getD_none]
+    decide
+
+theorem hexCh_zero : HexCh '0' := ⟨0, by omega, by decide⟩
+
+theorem hexDigit_facts : ∀ k, k < 16 → hexVal (hexDigit k) = some k ∧ hexDigit k ≠ ' ' ∧ hexDigit k ≠ ','
+    ∧ hexDigit k ≠ '\r' ∧ hexDigit k ≠ '\n' := by decide
+
+theorem hexVal_hexDigit (k : Nat) (h : k < 16) : hexVal (hexDigit k) = some k := (hexDigit_facts k h).1
+
+theorem HexCh.ne_space {c : Char} (h : HexCh c) : c ≠ ' ' := by
+  obtain ⟨k, hk, rfl⟩ := h; exact (hexDigit_facts k hk).2.1
+theorem HexCh.ne_comma {c : Char} (h : HexCh c) : c ≠ ',' := by
+  obtain ⟨k, hk, rfl⟩ := h; exact (hexDigit_facts k hk).2.2.1
+theorem HexCh.ne_cr {c : Char} (h : HexCh c) : c ≠ '\r' := by
+  obtain ⟨k, hk, rfl⟩ := h; exact (hexDigit_facts k hk).2.2.2.1
+theorem HexCh.ne_lf {c : Char} (h : HexCh c) : c ≠ '\n' := by
+  obtain ⟨k, hk, rfl⟩ := h; exact (hexDigit_facts k hk).2.2.2.2
+
+/-- all characters of the list are upper-case hex digits -/
+def AllHex (s : List Char) : Prop := ∀ c ∈ s, HexCh c
+
+theorem AllHex.not_mem {s : List Char} (h : AllHex s) {c : Char} (hc : ¬ HexCh c) : c ∉ s :=
+  fun hm => hc (h c hm)
+
+theorem not_hexCh_space : ¬ HexCh ' ' := fun h => h.ne_space rfl
+theorem not_hexCh_comma : ¬ HexCh ',' := fun h => h.ne_comma rfl
+theorem not_hexCh_cr : ¬ HexCh '\r' := fun h => h.ne_cr rfl
+theorem not_hexCh_lf : ¬ HexCh '\n' := fun h => h.ne_lf rfl
+
+theorem allHex_toHexAux (fuel n : Nat) (acc : List Char) (h : AllHex acc) : AllHex (toHexAux fuel n acc) := by
+  induction fuel generalizing n acc with
+  | zero => exact h
+  | succ f ih =>
+    unfold toHexAux
+    split
+    · intro c hc
+      rcases List.mem_cons.1 hc with rfl | hc
+      · exact hexCh_hexDigit n
+      · exact h c hc
+    · apply ih
+      intro c hc
+      rcases List.mem_cons.1 hc with rfl | hc
+      · exact hexCh_hexDigit _
+      · exact h c hc
+
+theorem allHex_toHex (k n : Nat) : AllHex (toHex k n) := by
+  intro c hc
+  simp only [toHex, List.mem_append, List.mem_replicate] at hc
+  rcases hc with ⟨_, rfl⟩ | hc
+  · exact hexCh_zero
+  · exact allHex_toHexAux 64 n [] (fun _ h => absurd h (by simp)) c hc
+
+theorem allHex_byteHex (b : Nat) : AllHex (byteHex b) := by
+  intro c hc
+  simp only [byteHex, List.mem_cons, List.not_mem_nil, or_false] at hc
+  rcases hc with rfl | rfl <;> exact hexCh_hexDigit _
+
+theorem toHexAux_ne_nil (fuel n : Nat) (acc : List Char) (h : fuel ≠ 0 ∨ acc ≠ []) : toHexAux fuel n acc ≠ [] := by
+  induction fuel generalizing n acc with
+  | zero => simpa [toHexAux] using h
+  | succ f ih =>
+    unfold toHexAux
+    split
+    · simp
+    · exact ih _ _ (Or.inr (by simp))
+
+theorem toHex_ne_nil (k n : Nat) : toHex k n ≠ [] := by
+  simp only [toHex, ne_eq, List.append_eq_nil_iff, not_and]
+  intro _
+  exact toHexAux_ne_nil 64 n [] (Or.inl (by decide))
+
+/-! ### parseHex -/
+/-- the fold step of `parseHex` -/
+def hexStep (acc : Option Nat) (c : Char) : Option Nat :=
+  match acc, hexVal c with
+  | some a, some v => some (a * 16 + v)
+  | _, _ => none
+
+theorem parseHex_eq (s : List Char) (h : s ≠ []) : parseHex s = s.foldl hexStep (some 0) := by
+  unfold parseHex
+  rw [if_neg (by simpa using h)]
+  rfl
+
+theorem foldl_hexStep_digit (a k : Nat) (hk : k < 16) (rest : List Char) :
+    (hexDigit k :: rest).foldl hexStep (some a) = rest.foldl hexStep (some (a * 16 + k)) := by
+  simp only [List.foldl_cons, hexStep, hexVal_hexDigit k hk]
+
+theorem foldl_hexStep_toHexAux (fuel n : Nat) (acc : List Char) (h : n < 16 ^ fuel) :
+    (toHexAux fuel n acc).foldl hexStep (some 0) = acc.foldl hexStep (some n) := by
+  induction fuel generalizing n acc with
+  | zero =>
+    have : n = 0 := by simpa using h
+    subst this; rfl
+  | succ f ih =>
+    unfold toHexAux
+    split
+    · next h16 => rw [foldl_hexStep_digit 0 n h16]; simp
+    · rw [ih (n / 16) _ (by rw [Nat.pow_succ] at h; omega), foldl_hexStep_digit _ _ (Nat.mod_lt _ (by decide))]
+      congr 2; omega
+
+theorem foldl_hexStep_zeros (m : Nat) (s : List Char) :
+    (List.replicate m '0' ++ s).foldl hexStep (some 0) = s.foldl hexStep (some 0) := by
+  induction m with
+  | zero => simp
+  | succ m ih =>
+    rw [List.replicate_succ, List.cons_append, List.foldl_cons]
+    have : hexStep (some 0) '0' = some 0 := by decide
+    rw [this, ih]
+
+theorem parseHex_toHex (k n : Nat) (h : n < 16 ^ 64) : parseHex (toHex k n) = some n := by
+  rw [parseHex_eq _ (toHex_ne_nil k n)]
+  simp only [toHex]
+  rw [foldl_hexStep_zeros, foldl_hexStep_toHexAux 64 n [] h]
+  rfl
+
+theorem parseHex_byteHex : ∀ b, b < 256 → parseHex (byteHex b) = some b := by decide +kernel
+
+theorem byteHex_ne_nil (b : Nat) : byteHex b ≠ [] := by simp [byteHex]
+
+theorem allSome_byteHex (data : Bytes) (hb : ∀ b ∈ data, b < 256) :
+    allSome ((data.map byteHex).map parseHex) = some data := by
+  induction data with
+  | nil => rfl
+  | cons b bs ih =>
+    simp only [List.map_cons, parseHex_byteHex b (hb b (by simp)), allSome,
+      ih (fun x hx => hb x (by simp [hx]))]
+    rfl
+
+theorem pairs_byteHex (data : Bytes) : pairs (data.map byteHex).flatten = some (data.map byteHex) := by
+  induction data with
+  | nil => rfl
+  | cons b bs ih => simp [byteHex, pairs, ih]
+
+
+
+theorem dropLast2 {α} (x : List α) (a b : α) : (x ++ [a, b]).dropLast.dropLast = x := by
+  have : x ++ [a, b] = (x ++ [a]) ++ [b] := by simp
+  rw [this, List.dropLast_concat, List.dropLast_concat]
+
+/-- space-free, non-empty tokens -/
+def Tok (t : List Char) : Prop := ' ' ∉ t ∧ t ≠ []
+
+theorem splitSpaces_line (toks : List (List Char)) (h : ∀ t ∈ toks, Tok t) (hn : toks ≠ []) :
+    splitSpaces (joinSep ' ' toks) = toks := by
+  unfold splitSpaces
+  rw [ss_go_join toks h hn]; rfl
+
+theorem allHex_tok {t : List Char} (h : AllHex t) (hn : t ≠ []) : Tok t :=
+  ⟨h.not_mem not_hexCh_space, hn⟩
+
+/-- what `decodeYd` does on a line of well-formed tokens -/
+theorem decodeYd_tokens (ts dir idTok : List Char) (toks : List (List Char)) (id : Nat) (data : Bytes)
+    (hts : validHms ts = true) (hsp : ' ' ∉ ts) (hne : ts ≠ []) (hdir : dir = ['R'] ∨ dir = ['T'])
+    (hid : Tok idTok) (hidp : parseHex idTok = some id)
+    (htoks : ∀ t ∈ toks, Tok t) (hn : toks ≠ [])
+    (hp : allSome (toks.map parseHex) = some data) (hb : ∀ b ∈ data, b < 256) :
+    decodeYd (ts ++ [' '] ++ dir ++ [' '] ++ (idTok ++ [' '] ++ joinSep ' ' toks)) = .ok (frameOfId id data) := by
+  have hdirT : Tok dir := by rcases hdir with rfl | rfl <;> exact ⟨by decide, by decide⟩
+  have e : ts ++ [' '] ++ dir ++ [' '] ++ (idTok ++ [' '] ++ joinSep ' ' toks)
+      = joinSep ' ' (ts :: dir :: idTok :: toks) := by
+    cases toks with
+    | nil => exact absurd rfl hn
+    | cons t toks => simp [joinSep]
+  have hall : ∀ t ∈ ts :: dir :: idTok :: toks, Tok t := by
+    intro t ht
+    simp only [List.mem_cons] at ht
+    rcases ht with rfl | rfl | rfl | ht
+    · exact ⟨hsp, hne⟩
+    · exact hdirT
+    · exact hid
+    · exact htoks t ht
+  rw [e]
+  unfold decodeYd
+  rw [splitSpaces_line _ hall (by simp)]
+  cases toks with
+  | nil => exact absurd rfl hn
+  | cons b0 bs =>
+    have hd : ¬ (dir ≠ ['R'] ∧ dir ≠ ['T']) := by
+      rcases hdir with rfl | rfl <;> simp
+    have hall : (data.all (· < 256)) = true := by
+      simp only [List.all_eq_true, decide_eq_true_eq]; exact hb
+    simp only [hd, hts, hidp, hp, hall, if_true, if_false, not_true_eq_false]
+
+theorem encodeYd_body (id : Nat) (data : Bytes) :
+    (encodeYd id data).dropLast.dropLast = toHex 8 id ++ [' '] ++ joinSep ' ' (data.map byteHex) := by
+  unfold encodeYd
+  rw [dropLast2, intercalate_eq_joinSep]
+
+theorem allHex_joinSep_space (toks : List (List Char)) (h : ∀ t ∈ toks, AllHex t) :
+    ∀ c ∈ joinSep ' ' toks, c = ' ' ∨ HexCh c := by
+  induction toks with
+  | nil => intro c hc; simp [joinSep] at hc
+  | cons t ts ih =>
+    cases ts with
+    | nil => intro c hc; exact Or.inr (h t (by simp) c (by simpa [joinSep] using hc))
+    | cons t' ts =>
+      intro c hc
+      simp only [joinSep, List.mem_append, List.mem_cons] at hc
+      rcases hc with hc | rfl | hc
+      · exact Or.inr (h t (by simp) c hc)
+      · exact Or.inl rfl
+      · exact ih (fun x hx => h x (by simp [hx])) c hc
+
+theorem yd_line (id : Nat) (data : Bytes) :
+    ∃ body, encodeYd id data = body ++ ['\r', '\n'] ∧ '\r' ∉ body ∧ '\n' ∉ body := by
+  refine ⟨toHex 8 id ++ [' '] ++ joinSep ' ' (data.map byteHex), ?_, ?_, ?_⟩
+  · unfold encodeYd; rw [intercalate_eq_joinSep]
+  all_goals
+    intro hm
+    simp only [List.mem_append, List.mem_cons, List.not_mem_nil, or_false] at hm
+    rcases hm with (hm | hm) | hm
+    · first
+      | exact not_hexCh_cr (allHex_toHex 8 id _ hm)
+      | exact not_hexCh_lf (allHex_toHex 8 id _ hm)
+    · exact absurd hm (by decide)
+    · rcases allHex_joinSep_space (data.map byteHex) (by
+        intro t ht; simp only [List.mem_map] at ht; obtain ⟨b, _, rfl⟩ := ht; exact allHex_byteHex b) _ hm with h | h
+      · exact absurd h (by decide)
+      · first
+        | exact not_hexCh_cr h
+        | exact not_hexCh_lf h
+
+theorem tok_byteHex_all (data : Bytes) : ∀ t ∈ data.map byteHex, Tok t := by
+  intro t ht
+  simp only [List.mem_map] at ht
+  obtain ⟨b, _, rfl⟩ := ht
+  exact allHex_tok (allHex_byteHex b) (byteHex_ne_nil b)
+
+theorem yd_rt (id : Nat) (data : Bytes) (hid : id < 2^32) (hd : 1 ≤ data.length)
+    (hb : ∀ b ∈ data, b < 256) (ts dir : List Char) (hts : validHms ts = true) (hsp : ' ' ∉ ts)
+    (hne : ts ≠ []) (hdir : dir = ['R'] ∨ dir = ['T']) :
+    decodeYd (ts ++ [' '] ++ dir ++ [' '] ++ (encodeYd id data).dropLast.dropLast) = .ok (frameOfId id data) := by
+  rw [encodeYd_body]
+  refine decodeYd_tokens ts dir _ _ id data hts hsp hne hdir (allHex_tok (allHex_toHex 8 id) (toHex_ne_nil 8 id))
+    (parseHex_toHex 8 id (by omega)) (tok_byteHex_all data) ?_ (allSome_byteHex data hb) hb
+  cases data with
+  | nil => simp at hd
+  | cons b bs => simp
+
+
+
+/-! ### case-insensitivity (generic in the character map) -/
+theorem foldl_hexStep_map (f : Char → Char) (hf : ∀ k, k < 16 → hexVal (f (hexDigit k)) = some k ∧ f (hexDigit k) ≠ ' ')
+    (t : List Char) (ht : AllHex t) (a : Option Nat) : (t.map f).foldl hexStep a = t.foldl hexStep a := by
+  induction t generalizing a with
+  | nil => rfl
+  | cons c t ih =>
+    obtain ⟨k, hk, rfl⟩ := ht c (by simp)
+    simp only [List.map_cons, List.foldl_cons]
+    rw [ih (fun x hx => ht x (by simp [hx]))]
+    congr 1
+    simp only [hexStep, (hf k hk).1, hexVal_hexDigit k hk]
+
+theorem parseHex_map (f : Char → Char) (hf : ∀ k, k < 16 → hexVal (f (hexDigit k)) = some k ∧ f (hexDigit k) ≠ ' ')
+    (t : List Char) (ht : AllHex t) (hn : t ≠ []) : parseHex (t.map f) = parseHex t := by
+  rw [parseHex_eq _ hn, parseHex_eq _ (by simpa using hn), foldl_hexStep_map f hf t ht]
+
+theorem tok_map (f : Char → Char) (hf : ∀ k, k < 16 → hexVal (f (hexDigit k)) = some k ∧ f (hexDigit k) ≠ ' ')
+    (t : List Char) (ht : AllHex t) (hn : t ≠ []) : Tok (t.map f) := by
+  refine ⟨?_, by simpa using hn⟩
+  intro hm
+  simp only [List.mem_map] at hm
+  obtain ⟨c, hc, e⟩ := hm
+  obtain ⟨k, hk, rfl⟩ := ht c hc
+  exact (hf k hk).2 e
+
+theorem yd_rt_map (f : Char → Char) (hf0 : f ' ' = ' ')
+    (hf : ∀ k, k < 16 → hexVal (f (hexDigit k)) = some k ∧ f (hexDigit k) ≠ ' ')
+    (id : Nat) (data : Bytes) (hid : id < 2^32) (hd : 1 ≤ data.length)
+    (hb : ∀ b ∈ data, b < 256) (ts dir : List Char) (hts : validHms ts = true) (hsp : ' ' ∉ ts)
+    (hne : ts ≠ []) (hdir : dir = ['R'] ∨ dir = ['T']) :
+    decodeYd (ts ++ [' '] ++ dir ++ [' '] ++ ((encodeYd id data).dropLast.dropLast).map f) = .ok (frameOfId id data) := by
+  rw [encodeYd_body]
+  simp only [List.map_append, List.map_cons, List.map_nil, map_joinSep, hf0]
+  refine decodeYd_tokens ts dir _ _ id data hts hsp hne hdir (tok_map f hf _ (allHex_toHex 8 id) (toHex_ne_nil 8 id))
+    ((parseHex_map f hf _ (allHex_toHex 8 id) (toHex_ne_nil 8 id)).trans (parseHex_toHex 8 id (by omega))) ?_ ?_ ?_ hb
+  · intro t ht
+    simp only [List.mem_map] at ht
+    obtain ⟨_, ⟨b, _, rfl⟩, rfl⟩ := ht
+    exact tok_map f hf _ (allHex_byteHex b) (byteHex_ne_nil b)
+  · cases data with
+    | nil => simp at hd
+    | cons b bs => simp
+  · rw [← allSome_byteHex data hb]
+    congr 1
+    simp only [List.map_map]
+    apply List.map_congr_left
+    intro b _
+    exact parseHex_map f hf _ (allHex_byteHex b) (byteHex_ne_nil b)
+
+/-! ### Actisense -/
+def actStamp : List Char := ['A','0','0','0','0','0','1','.','0','0','0']
+
+theorem actStamp_eq : "A000001.000 ".toList = actStamp ++ [' '] := by decide
+
+theorem allHex_flatten (toks : List (List Char)) (h : ∀ t ∈ toks, AllHex t) : AllHex toks.flatten := by
+  intro c hc
+  simp only [List.mem_flatten] at hc
+  obtain ⟨t, ht, hc⟩ := hc
+  exact h t ht c hc
+
+theorem actisense_rt (prio dst src pgn : Nat) (data : Bytes) (hp : prio < 16) (hd : dst < 256)
+    (hs : src < 256) (hg : pgn < 2^24) (hl : 1 ≤ data.length) (hb : ∀ b ∈ data, b < 256) :
+    decodeActisense ("A000001.000 ".toList ++ encodeActisense prio dst src pgn data) =
+      .ok { pgn := pgn, prio := prio, src := src, dst := dst, data := data } := by
+  have e : "A000001.000 ".toList ++ encodeActisense prio dst src pgn data =
+      joinSep ' ' [actStamp, toHex 5 (src * 4096 + dst * 16 + prio), toHex 5 pgn, (data.map byteHex).flatten] := by
+    rw [actStamp_eq]
+    simp only [encodeActisense, joinSep, Nat.mod_eq_of_lt hp, Nat.mod_eq_of_lt hd, Nat.mod_eq_of_lt hs,
+      Nat.mod_eq_of_lt (show pgn < 16777216 from hg), List.append_assoc, List.cons_append, List.nil_append]
+  have hdat : Tok (data.map byteHex).flatten := by
+    refine allHex_tok (allHex_flatten _ ?_) ?_
+    · intro t ht; simp only [List.mem_map] at ht; obtain ⟨b, _, rfl⟩ := ht; exact allHex_byteHex b
+    · cases data with
+      | nil => simp at hl
+      | cons b bs => simp [byteHex]
+  rw [e, decodeActisense, splitSpaces_line _ (by
+    intro t ht
+    simp only [List.mem_cons, List.not_mem_nil, or_false] at ht
+    rcases ht with rfl | rfl | rfl | rfl
+    · exact ⟨by decide, by decide⟩
+    · exact allHex_tok (allHex_toHex _ _) (toHex_ne_nil _ _)
+    · exact allHex_tok (allHex_toHex _ _) (toHex_ne_nil _ _)
+    · exact hdat) (by simp)]
+  have h1 : splitOn '.' ['0','0','0','0','0','1','.','0','0','0'] = [['0','0','0','0','0','1'], ['0','0','0']] := by decide
+  have h2 : parseDec ['0','0','0','0','0','1'] = some 1 := by decide
+  have h3 : parseDec ['0','0','0'] = some 0 := by decide
+  simp only [actStamp, h1, h2, h3, parseHex_toHex 5 _ (show src * 4096 + dst * 16 + prio < 16^64 by omega),
+    parseHex_toHex 5 pgn (show pgn < 16^64 by omega), pairs_byteHex, Option.bind_some, allSome_byteHex data hb]
+  simp
+  omega
+
+
+
+/-! ### decimal rendering (`"%d"`) and canboat plain text -/
+/-- the `"%d"` rendering (same recursion as `toDecAux`/`toDec` of Props/C07) -/
+def decAux : Nat → Nat → List Char → List Char
+  | 0, _, acc => acc
+  | fuel + 1, n, acc => if n < 10 then Char.ofNat (48 + n) :: acc else decAux fuel (n / 10) (Char.ofNat (48 + n % 10) :: acc)
+def dec (n : Nat) : List Char := decAux 40 n []
+
+theorem decDigit_facts : ∀ d, d < 10 → isDigit (Char.ofNat (48 + d)) = true ∧ (Char.ofNat (48 + d)).toNat - 48 = d
+    ∧ Char.ofNat (48 + d) ≠ ',' := by decide
+
+/-- decimal digits only -/
+def AllDig (s : List Char) : Prop := ∀ c ∈ s, isDigit c = true ∧ c ≠ ','
+
+theorem allDig_cons {d : Nat} (hd : d < 10) {acc : List Char} (h : AllDig acc) : AllDig (Char.ofNat (48 + d) :: acc) := by
+  intro c hc
+  rcases List.mem_cons.1 hc with rfl | hc
+  · exact ⟨(decDigit_facts d hd).1, (decDigit_facts d hd).2.2⟩
+  · exact h c hc
+
+theorem allDig_decAux (fuel n : Nat) (acc : List Char) (h : AllDig acc) : AllDig (decAux fuel n acc) := by
+  induction fuel generalizing n acc with
+  | zero => exact h
+  | succ f ih =>
+    unfold decAux
+    split
+    · next h10 => exact allDig_cons h10 h
+    · exact ih _ _ (allDig_cons (Nat.mod_lt _ (by decide)) h)
+
+theorem decAux_ne_nil (fuel n : Nat) (acc : List Char) (h : fuel ≠ 0 ∨ acc ≠ []) : decAux fuel n acc ≠ [] := by
+  induction fuel generalizing n acc with
+  | zero => simpa [decAux] using h
+  | succ f ih =>
+    unfold decAux
+    split
+    · simp
+    · exact ih _ _ (Or.inr (by simp))
+
+theorem foldl_decAux (fuel n : Nat) (acc : List Char) (h : n < 10 ^ fuel) :
+    (decAux fuel n acc).foldl (fun a c => a * 10 + (c.toNat - 48)) 0 =
+      acc.foldl (fun a c => a * 10 + (c.toNat - 48)) n := by
+  induction fuel generalizing n acc with
+  | zero =>
+    have : n = 0 := by simpa using h
+    subst this; rfl
+  | succ f ih =>
+    unfold decAux
+    split
+    · next h10 => simp only [List.foldl_cons, (decDigit_facts n h10).2.1]; simp
+    · rw [ih (n / 10) _ (by rw [Nat.pow_succ] at h; omega)]
+      simp only [List.foldl_cons, (decDigit_facts (n % 10) (Nat.mod_lt _ (by decide))).2.1]
+      congr 1; omega
+
+theorem allDig_dec (n : Nat) : AllDig (dec n) := allDig_decAux 40 n [] (fun _ h => absurd h (by simp))
+
+theorem comma_not_mem_dec (n : Nat) : ',' ∉ dec n := fun h => (allDig_dec n _ h).2 rfl
+
+theorem parseDec_dec (n : Nat) (h : n < 10 ^ 40) : parseDec (dec n) = some n := by
+  unfold parseDec
+  have h1 : (dec n).isEmpty = false := by
+    have := decAux_ne_nil 40 n [] (Or.inl (by decide))
+    simpa [dec] using this
+  have h2 : (dec n).all isDigit = true := by
+    simp only [List.all_eq_true]; exact fun c hc => (allDig_dec n c hc).1
+  rw [if_neg (by simp [h1, h2])]
+  simp only [dec]
+  rw [foldl_decAux 40 n [] h]; rfl
+
+theorem splitOn_line (sep : Char) (toks : List (List Char)) (h : ∀ t ∈ toks, sep ∉ t) (hn : toks ≠ []) :
+    splitOn sep (joinSep sep toks) = toks := by
+  unfold splitOn
+  rw [so_go_join sep toks h hn]; rfl
+
+/-- what `decodeBasic` does on a line of well-formed fields -/
+theorem decodeBasic_tokens (ts p g s d l : List Char) (toks : List (List Char)) (prio pgn src dst : Nat)
+    (data : Bytes) (hts : validStamp ts = true) (hc : ',' ∉ ts)
+    (hp : ',' ∉ p) (hp' : parseDec p = some prio) (hg : ',' ∉ g) (hg' : parseDec g = some pgn)
+    (hs : ',' ∉ s) (hs' : parseDec s = some src) (hd : ',' ∉ d) (hd' : parseDec d = some dst)
+    (hl : ',' ∉ l) (len : Nat) (hl' : parseDec l = some len)
+    (htoks : ∀ t ∈ toks, ',' ∉ t) (hn : toks ≠ [])
+    (hdata : allSome ((toks.take len).map parseHex) = some data) (hb : ∀ b ∈ data, b < 256) :
+    decodeBasic (ts ++ [','] ++ p ++ [','] ++ g ++ [','] ++ s ++ [','] ++ d ++ [','] ++ l ++ [','] ++ joinSep ',' toks)
+      = .ok { pgn := pgn, prio := prio, src := src, dst := dst, data := data } := by
+  have e : ts ++ [','] ++ p ++ [','] ++ g ++ [','] ++ s ++ [','] ++ d ++ [','] ++ l ++ [','] ++ joinSep ',' toks
+      = joinSep ',' (ts :: p :: g :: s :: d :: l :: toks) := by
+    cases toks with
+    | nil => exact absurd rfl hn
+    | cons t toks => simp [joinSep]
+  have hall : ∀ t ∈ ts :: p :: g :: s :: d :: l :: toks, ',' ∉ t := by
+    intro t ht
+    simp only [List.mem_cons] at ht
+    rcases ht with rfl | rfl | rfl | rfl | rfl | rfl | ht
+    · exact hc
+    · exact hp
+    · exact hg
+    · exact hs
+    · exact hd
+    · exact hl
+    · exact htoks t ht
+  rw [e]
+  unfold decodeBasic
+  rw [splitOn_line ',' _ hall (by simp)]
+  have hall : (data.all (· < 256)) = true := by
+    simp only [List.all_eq_true, decide_eq_true_eq]; exact hb
+  have he : toks.isEmpty = false := by cases toks with
+    | nil => exact absurd rfl hn
+    | cons t toks => rfl
+  simp only [he, hts, hp', hg', hs', hd', hl', hdata, hall, if_true, if_false, not_true_eq_false]
+  simp
+
+/-- canboat plain-text round trip, for field values the `"%d"` model can render (fuel 40) -/
+theorem basic_rt (f : Frame) (hprio : f.prio < 10 ^ 40) (hpgn : f.pgn < 10 ^ 40) (hsrc : f.src < 10 ^ 40)
+    (hdst : f.dst < 10 ^ 40) (hlen : f.data.length < 10 ^ 40) (hd : 1 ≤ f.data.length)
+    (hb : ∀ b ∈ f.data, b < 256) (ts : List Char) (hts : validStamp ts = true) (hc : ',' ∉ ts) :
+    decodeBasic (ts ++ [','] ++ dec f.prio ++ [','] ++ dec f.pgn ++ [','] ++ dec f.src ++ [','] ++ dec f.dst ++ [','] ++
+      dec f.data.length ++ [','] ++ List.intercalate [','] (f.data.map byteHex)) = .ok f := by
+  rw [intercalate_eq_joinSep]
+  refine decodeBasic_tokens ts _ _ _ _ _ _ f.prio f.pgn f.src f.dst f.data hts hc
+    (comma_not_mem_dec _) (parseDec_dec _ hprio) (comma_not_mem_dec _) (parseDec_dec _ hpgn)
+    (comma_not_mem_dec _) (parseDec_dec _ hsrc) (comma_not_mem_dec _) (parseDec_dec _ hdst)
+    (comma_not_mem_dec _) f.data.length (parseDec_dec _ hlen) ?_ ?_
+    (by rw [← List.map_take, List.take_length]; exact allSome_byteHex _ hb) hb
+  · intro t ht
+    simp only [List.mem_map] at ht
+    obtain ⟨b, _, rfl⟩ := ht
+    exact (allHex_byteHex b).not_mem not_hexCh_comma
+  · cases hdat : f.data with
+    | nil => simp [hdat] at hd
+    | cons b bs => simp
+
+
 end N2k.Wire
